@@ -13,6 +13,8 @@ import json, os, subprocess, sys, glob, time
 
 ROOT = os.path.dirname(os.path.dirname(os.path.abspath(__file__)))
 
+os.environ.setdefault('MUT_COMMITTED', '1')
+
 def run_check(check, patch):
     p = subprocess.run([f'{ROOT}/tools/mutant.sh', check, '--patch', patch],
                        capture_output=True, text=True, timeout=4 * 3600)
